@@ -3,14 +3,35 @@ from pyg_base._types import is_primitive
 from pyg_base._decorators import wrapper, getargs
 
 _cache = 'cache'
+class _hashable(tuple):
+    """
+    The hashable stand-in for a list or a dict inside a cache key. It remembers the type it replaces,
+    so that f([1]), f((1,)) and f({'a':1}), f((('a',1),)) are different keys, as the arguments are different.
+    
+    >>> assert _prehash([1,2]) == _prehash([1,2]) and hash(_prehash([1,2])) == hash(_prehash([1,2]))
+    >>> assert _prehash([1,2]) != _prehash((1,2)) and _prehash((1,2)) == (1,2)
+    >>> assert _prehash(dict(a = 1)) != _prehash((('a', 1),)) 
+    >>> assert _prehash(dict(a = 1, b = [2])) == _prehash(dict(b = [2], a = 1))
+    """
+    def __eq__(self, other):
+        return type(other) is _hashable and tuple.__eq__(self, other)
+    def __ne__(self, other):
+        return not self == other
+    __hash__ = tuple.__hash__
+
+
 def _prehash(value):
-    if isinstance(value, (tuple,list)):
+    if isinstance(value, tuple):
         return tuple([_prehash(v) for v in value])
+    elif isinstance(value, list):
+        return _hashable([list] + [_prehash(v) for v in value])
     elif isinstance(value, dict):
+        items = [(k, _prehash(v)) for k, v in value.items()]
         try:
-            return tuple(sorted([(k, _prehash(v)) for k, v in value.items()]))
+            items = sorted(items)
         except TypeError:
-            return tuple([(k, _prehash(v)) for k, v in value.items()])
+            pass
+        return _hashable([dict] + items)
     else:
         return value
 
@@ -36,7 +57,7 @@ class cache_func(wrapper):
 
     """
     def _key(self, *args, **kwargs):
-        return _prehash((args, kwargs))
+        return _prehash(args), tuple(sorted([(k, _prehash(v)) for k, v in kwargs.items()]))
 
     def wrapped(self, *args, **kwargs):
         key = self._key(*args, **kwargs)
